@@ -57,6 +57,9 @@ class AdvancedHTMLFormatter(HTMLParser):
         self.reset = self._reset
         self.decl = None
         self.currentIndentLevel = 0
+        if isinstance(indent, int):
+            # An integer is the number of spaces per level of indent
+            indent = ' ' * indent
         self.indent = indent
         self.encoding = encoding
 
